@@ -123,6 +123,42 @@ Proof.
   - destruct (Z.eqb_spec (nth (Z.to_nat e) l 0%Z) 0); [contradiction | reflexivity].
 Qed.
 
+(* arange(n)[dead_elements] is accepted iff the vector has one flag per element OR IS EMPTY
+   (model repair: numpy accepts an empty boolean index on a vector of any length; dead_indices
+   used to answer None for it on a non-empty probe); the empty vector selects nothing, exactly
+   like the all-False vector *)
+Lemma dead_indices_spec (n : nat) (mask : list bool) (r : list Z) :
+  dead_indices n mask = Some r <-> (length mask = n \/ mask = []) /\ r = mask_positions 0 mask.
+Proof.
+  unfold dead_indices. destruct (Nat.eqb_spec (length mask) n) as [E | E]; cbn [orb].
+  - split; [intro H; injection H as <-; split; [left; exact E | reflexivity] | intros [_ ->]; reflexivity].
+  - destruct (Nat.eqb_spec (length mask) 0) as [E0 | E0].
+    + apply length_zero_iff_nil in E0.
+      split; [intro H; injection H as <-; split; [right; exact E0 | reflexivity] | intros [_ ->]; reflexivity].
+    + split; [discriminate|]. intros [[H | H] _]; [contradiction|]. subst mask. contradiction E0. reflexivity.
+Qed.
+
+Lemma dead_indices_ok (n : nat) (mask : list bool) :
+  length mask = n \/ mask = [] -> dead_indices n mask = Some (mask_positions 0 mask).
+Proof. intro H. apply dead_indices_spec. split; [exact H | reflexivity]. Qed.
+
+Lemma dead_indices_raises (n : nat) (mask : list bool) :
+  length mask <> n -> mask <> [] -> dead_indices n mask = None.
+Proof.
+  intros H1 H2. destruct (dead_indices n mask) as [r |] eqn:E; [|reflexivity].
+  apply dead_indices_spec in E as [[E | E] _]; contradiction.
+Qed.
+
+Lemma mask_positions_all_false n : forall i, mask_positions i (repeat false n) = [].
+Proof. induction n as [| n IH]; intro i; [reflexivity|]. cbn [repeat mask_positions]. apply IH. Qed.
+
+Lemma dead_indices_empty_is_all_false n : dead_indices n [] = dead_indices n (repeat false n).
+Proof.
+  rewrite (dead_indices_ok n []) by (right; reflexivity).
+  rewrite (dead_indices_ok n (repeat false n)) by (left; apply repeat_length).
+  rewrite mask_positions_all_false. reflexivity.
+Qed.
+
 (* ---- the pulse-echo mask --------------------------------------------------------------- *)
 (* the three passes of the code compute exactly the predicate of Model/Registration.v *)
 Lemma pe_mask_spec dead : forall tx rx,
@@ -192,12 +228,14 @@ Section Generic.
                     (Registration.cs_translate N (n0 N, n0 N, z_o) (cs_rot_y N theta pcs)))
     end.
 
+  (* (model repair: the hypothesis on the flags used to read `length dead = length locs`;
+     the empty vector, which numpy accepts too, is now covered — here and below) *)
   Lemma move_probe_fit_pose fit pcs tx rx dead locs ds :
-    length dead = length locs -> length tx = length rx ->
+    length dead = length locs \/ dead = [] -> length tx = length rx ->
     move_probe N fit pcs tx rx dead locs ds
     = pose_result pcs locs (fit_pose N fit pcs tx rx dead locs ds).
   Proof.
-    intros Hd Hl. unfold move_probe, fit_pose, dead_indices. rewrite Hd, Nat.eqb_refl.
+    intros Hd Hl. unfold move_probe, fit_pose. rewrite (dead_indices_ok _ _ Hd).
     rewrite pe_mask_spec, count_true_map, map_length, combine_length, <- Hl, Nat.min_id.
     cbv zeta.
     destruct (negb (cs_isclose N pcs (Registration.gcs N))); [reflexivity|].
@@ -232,12 +270,12 @@ Section Generic.
      than two timetraces have tx = rx on a live element — before the distances are even looked
      at (their number, sign and values are irrelevant) *)
   Lemma fit_pose_too_few fit pcs tx rx dead locs ds :
-    length dead = length locs ->
+    length dead = length locs \/ dead = [] ->
     (fit_pose N fit pcs tx rx dead locs ds = inl E_TooFewPulseEcho
      <-> cs_isclose N pcs (Registration.gcs N) = true /\
          (length (filter (fun p => pulse_echo dead (fst p) (snd p)) (combine tx rx)) < 2)%nat).
   Proof.
-    intro Hd. unfold fit_pose, dead_indices. rewrite Hd, Nat.eqb_refl, pe_mask_spec, count_true_map.
+    intro Hd. unfold fit_pose. rewrite (dead_indices_ok _ _ Hd), pe_mask_spec, count_true_map.
     destruct (cs_isclose N pcs (Registration.gcs N)); cbn [negb].
     - destruct (Nat.ltb_spec (length (filter (fun p => pulse_echo dead (fst p) (snd p)) (combine tx rx))) 2) as [Hlt | Hge].
       + split; [intros _; split; [reflexivity | exact Hlt] | reflexivity].
@@ -248,14 +286,14 @@ Section Generic.
   (* a success needs >= 2 usable pulse-echo timetraces, one distance per timetrace, no
      negative distance on a usable timetrace *)
   Lemma fit_pose_ok_needs fit pcs tx rx dead locs ds z th :
-    length dead = length locs -> length tx = length rx ->
+    length dead = length locs \/ dead = [] -> length tx = length rx ->
     fit_pose N fit pcs tx rx dead locs ds = inr (z, th) ->
     cs_isclose N pcs (Registration.gcs N) = true /\
     (2 <= length (selected dead tx rx ds))%nat /\ length ds = length tx /\
     forall t, In t (selected dead tx rx ds) -> nltb N (tr_d t) (n0 N) = false.
   Proof.
-    intros Hd Hl. unfold fit_pose, dead_indices.
-    rewrite Hd, Nat.eqb_refl, pe_mask_spec, count_true_map, map_length, combine_length, <- Hl, Nat.min_id.
+    intros Hd Hl. unfold fit_pose.
+    rewrite (dead_indices_ok _ _ Hd), pe_mask_spec, count_true_map, map_length, combine_length, <- Hl, Nat.min_id.
     destruct (cs_isclose N pcs (Registration.gcs N)); cbn [negb]; [|discriminate].
     destruct (Nat.ltb_spec (length (filter (fun p => pulse_echo dead (fst p) (snd p)) (combine tx rx))) 2) as [Hlt | Hge];
       [discriminate|].
@@ -268,6 +306,21 @@ Section Generic.
       assert (existsb (fun d => nltb N d (n0 N)) (map tr_d (selected dead tx rx ds)) = true) as C.
       { apply existsb_exists. exists (tr_d t). split; [apply in_map; exact Ht | exact E]. }
       congruence.
+  Qed.
+  (* an EMPTY vector of flags (possible only by assignment after construction: the
+     constructor asserts the shape) behaves exactly like "no dead element", whatever the probe *)
+  Lemma fit_pose_empty_dead fit pcs tx rx locs ds :
+    fit_pose N fit pcs tx rx [] locs ds = fit_pose N fit pcs tx rx (repeat false (length locs)) locs ds.
+  Proof. unfold fit_pose. rewrite dead_indices_empty_is_all_false. reflexivity. Qed.
+
+  (* flags of any other length: IndexError, right after the gate *)
+  Lemma fit_pose_dead_mismatch fit pcs tx rx dead locs ds :
+    length dead <> length locs -> dead <> [] ->
+    fit_pose N fit pcs tx rx dead locs ds =
+    if cs_isclose N pcs (Registration.gcs N) then inl E_Index else inl E_PcsNotGcs.
+  Proof.
+    intros H1 H2. unfold fit_pose. rewrite (dead_indices_raises _ _ H1 H2).
+    destruct (cs_isclose N pcs (Registration.gcs N)); reflexivity.
   Qed.
 End Generic.
 
@@ -339,7 +392,7 @@ Section GenericFmc.
     (fit_pose N fit pcs (map fst (fmc_pairs (length dead))) (map snd (fmc_pairs (length dead))) dead locs ds
      = inl E_TooFewPulseEcho <-> (length (filter negb dead) < 2)%nat).
   Proof.
-    intros Hd Hg. rewrite (fit_pose_too_few N fit pcs _ _ dead locs ds Hd).
+    intros Hd Hg. rewrite (fit_pose_too_few N fit pcs _ _ dead locs ds (or_introl Hd)).
     assert (combine (map fst (fmc_pairs (length dead))) (map snd (fmc_pairs (length dead))) = fmc_pairs (length dead)) as ->.
     { generalize (fmc_pairs (length dead)). induction l as [| [a b] l IH]; [reflexivity|]. cbn. rewrite IH. reflexivity. }
     rewrite fmc_usable. split; [intros [_ H]; exact H | intro H; split; [exact Hg | exact H]].
@@ -350,7 +403,7 @@ Section GenericFmc.
     (fit_pose N fit pcs (map fst (hmc_pairs (length dead))) (map snd (hmc_pairs (length dead))) dead locs ds
      = inl E_TooFewPulseEcho <-> (length (filter negb dead) < 2)%nat).
   Proof.
-    intros Hd Hg. rewrite (fit_pose_too_few N fit pcs _ _ dead locs ds Hd).
+    intros Hd Hg. rewrite (fit_pose_too_few N fit pcs _ _ dead locs ds (or_introl Hd)).
     assert (combine (map fst (hmc_pairs (length dead))) (map snd (hmc_pairs (length dead))) = hmc_pairs (length dead)) as ->.
     { generalize (hmc_pairs (length dead)). induction l as [| [a b] l IH]; [reflexivity|]. cbn. rewrite IH. reflexivity. }
     rewrite hmc_usable. split; [intros [_ H]; exact H | intro H; split; [exact Hg | exact H]].
